@@ -42,7 +42,10 @@ MCVarOptSet(c) ==
   { [DefVariant EXCEPT !.style = s, !.dflt = m] :
       s \in {"named", "tuple"}, m \in (IF c.kind = "enum" /\ HasTrait(c, "Default") THEN BOOLEAN ELSE {FALSE}) }
 
-Classes(c) == IF c.opts.gen = "TU" THEN {"T", "U", "WrapT", "PairTU", "conc"} ELSE {"T", "WrapT", "PhantomT", "conc"}
+Classes(c) ==
+  CASE c.opts.gen = "TU" -> {"T", "U", "WrapT", "PairTU", "conc"}
+    [] c.opts.gen = "rich" -> {"T", "WrapT", "PhantomT", "conc"}
+    [] OTHER -> {"RefT", "U", "PhantomT", "conc"}            \* (T is unsized: only behind a reference)
 Choices(c) ==
   LET has(t) == HasTrait(c, t) IN
   { [DefField EXCEPT !.ty = ty, !.dbg = d, !.clone = cl, !.eq = e, !.ord = o, !.hash = h, !.into = m] :
@@ -58,13 +61,13 @@ Choices(c) ==
                     <<[t |-> "B", m |-> TRUE], [t |-> "A", m |-> FALSE]>>,
                     \* this field serves A only; the next one serves B
                     <<[t |-> "A", m |-> FALSE]>> }) }
-BFields(c) == { [DefField EXCEPT !.ty = ty, !.into = <<[t |-> "B", m |-> FALSE]>>] : ty \in (IF c.opts.gen = "TU" THEN {"U"} ELSE {"WrapT"}) }
+BFields(c) == { [DefField EXCEPT !.ty = ty, !.into = <<[t |-> "B", m |-> FALSE]>>] : ty \in (IF c.opts.gen = "rich" THEN {"WrapT"} ELSE {"U"}) }
 TwoTargets(c) == HasTrait(c, "Into") /\ Len(c.opts.targets) = 2
 ServesB(f) == \E k \in DOMAIN f.into : f.into[k].t = "B"
 
 PhantomField == [DefField EXCEPT !.ty = "PhantomAll"]
 PlainFields(c) ==
-  { [DefField EXCEPT !.ty = "T", !.into = IF HasTrait(c, "Into") /\ Len(c.opts.targets) = 2 THEN <<[t |-> "B", m |-> TRUE]>> ELSE <<>>] }
+  { [DefField EXCEPT !.ty = (IF c.opts.gen = "wide" THEN "U" ELSE "T"), !.into = IF HasTrait(c, "Into") /\ Len(c.opts.targets) = 2 THEN <<[t |-> "B", m |-> TRUE]>> ELSE <<>>] }
 MCFieldSet(c) ==
   IF NVariants(c) = 0 THEN {}
   ELSE LET lv == Last(c.variants)
